@@ -87,6 +87,8 @@ def lib_accept(sc):
     from pytoniq_core.tl.block import BlockIdExt
     nodes = [ValidatorDescr(type_='validator', public_key=SigPubKey(k), weight=w) for k, w in sc['nodes']]
     sigs = [{'node_id_short': i.hex(), 'signature': s} for i, s in sc['sigs']]
+    for j, txt in (sc.get('id_text') or {}).items():      # a node_id_short that is not the hex of any bytes (bytes.fromhex raises)
+        sigs[int(j)]['node_id_short'] = txt
     blk = BlockIdExt(sc['wc'], sc['shard'], sc['seqno'], sc['root'], sc['file'])
     try:
         r = check_block_signatures(nodes, sigs, blk)
@@ -115,14 +117,14 @@ def model_line(sc, payload):
 
 
 def to_json(sc):
-    return {'kind': sc['kind'], 'expect': sc['expect'], 'why': sc.get('why', ''),
+    return {'kind': sc['kind'], 'expect': sc['expect'], 'why': sc.get('why', ''), 'id_text': sc.get('id_text') or {},
             'nodes': [[k.hex(), str(w)] for k, w in sc['nodes']],
             'sigs': [[i.hex(), s.hex()] for i, s in sc['sigs']],
             'wc': sc['wc'], 'shard': str(sc['shard']), 'seqno': sc['seqno'], 'root': sc['root'].hex(), 'file': sc['file'].hex()}
 
 
 def from_json(j):
-    return {'kind': j['kind'], 'expect': j['expect'], 'why': j.get('why', ''),
+    return {'kind': j['kind'], 'expect': j['expect'], 'why': j.get('why', ''), 'id_text': j.get('id_text') or {},
             'nodes': [(bytes.fromhex(k), int(w)) for k, w in j['nodes']],
             'sigs': [(bytes.fromhex(i), bytes.fromhex(s)) for i, s in j['sigs']],
             'wc': j['wc'], 'shard': int(j['shard']), 'seqno': j['seqno'], 'root': bytes.fromhex(j['root']), 'file': bytes.fromhex(j['file'])}
@@ -131,7 +133,7 @@ def from_json(j):
 def check_one(ctx, sc):
     payload = SIGN_MAGIC + sc['root'] + sc['file']
     expect = sc['expect']
-    spec = spec_accept(sc['nodes'], sc['sigs'], payload)
+    spec = spec_accept(sc['nodes'], sc['sigs'], payload) and not sc.get('id_text')     # an id that is no hex string names nobody
     if expect is None:
         expect = spec
     elif spec != expect:
@@ -150,7 +152,8 @@ def check_one(ctx, sc):
         ctx.fail(f'{verb}-{sc["kind"]}:{n}v{m}s', f'check_block_signatures {verb} a signature set that must be '
                  f'{"accepted" if expect else "rejected"} ({sc["kind"]}: {sc.get("why", "")})',
                  to_json(sc), verb, 'accept' if expect else 'reject')
-    ctx.expect_model(model_line(sc, payload), 'ok 1' if got else 'ok 0', f'{sc["kind"]} {n}v{m}s')
+    if not sc.get('id_text'):        # the model's entries carry bytes; a non-hex id text has no counterpart there
+        ctx.expect_model(model_line(sc, payload), 'ok 1' if got else 'ok 0', f'{sc["kind"]} {n}v{m}s')
 
 
 # --------------------------------------------------------------------------- scenario generator
@@ -360,6 +363,9 @@ def special_scenarios(rng, pool):
     yield dict(kind='single/0of1', expect=False, why='one validator, nobody signs', nodes=nd([0], 5), sigs=[], **blk)
     yield dict(kind='zero-weights/all', expect=False, why='all weights 0, everybody signs: 0 > 0 is false', nodes=nd(range(3), 0),
                sigs=[sg(0), sg(1), sg(2)], **blk)
+    for txt in ('zz' * 32, sg(0)[0].hex()[:-1], '0x' + sg(0)[0].hex()):
+        yield dict(kind='bad-hex-id/3of3', expect=False, why=f'all sign, but node_id_short[0] = {txt[:12]}… is not valid hex', nodes=nd(range(3)),
+                   sigs=[sg(0), sg(1), sg(2)], id_text={'0': txt}, **blk)
     # all equal n: smallest accepting count and the one below, for every n up to 40
     for n in range(1, 41):
         k = (2 * n) // 3 + 1
